@@ -5,11 +5,13 @@ Applies output format conversion (VTL, SDMX Reporting, SDMX Gregorian, Natural)
 to TimePeriod columns using DuckDB SQL macros on the existing connection.
 """
 
+import re
 from typing import Dict, Optional
 
 import duckdb
 
 from vtlengine.DataTypes import TimePeriod
+from vtlengine.Exceptions import RunTimeError
 from vtlengine.files.output._time_period_representation import (
     TimePeriodRepresentation,
     format_time_period_external_representation,
@@ -71,7 +73,15 @@ def apply_time_period_representation(
     macro = _REPR_MACRO[representation]
     set_clauses = ", ".join(f'"{col}" = {macro}("{col}")' for col in varchar_tp_cols)
     where_clauses = " OR ".join(f'"{col}" IS NOT NULL' for col in varchar_tp_cols)
-    conn.execute(f'UPDATE "{table_name}" SET {set_clauses} WHERE {where_clauses}')
+    try:
+        conn.execute(f'UPDATE "{table_name}" SET {set_clauses} WHERE {where_clauses}')
+    except duckdb.Error as e:
+        # The representation macro reports an indicator the format cannot express
+        # (mirrors TimePeriodHandler.sdmx_gregorian_representation).
+        m = re.search(r"VTL Error 2-1-19-21: .* got (\w+)", str(e))
+        if m:
+            raise RunTimeError("2-1-19-21", period=m.group(1)) from e
+        raise
 
 
 def format_time_period_scalar(
